@@ -4,7 +4,7 @@
 Mechanical mutation screening of the monitors (validation of the checks, not a check itself).
 For every mutation listed by tools/mutgen (operator flips, constant nudges, deleted statements, negated
 conditions in the library's non-test sources) whose ordinal is congruent to <stream> mod <nstreams>:
-apply it to a scratch copy of /repo's working tree under /tmp, rebuild the harness against that copy
+apply it to a scratch copy of /repo's HEAD under /tmp, rebuild the harness against that copy
 (-modfile with the replace directive pointing at the copy, -tags verif), run the checks that concern the
 mutated file - reduced case count in stage 1, the full quick tier in stage 2 - and stop at the first
 check that reports a VIOLATION.  Nothing is written to /repo; the scratch copy is removed at the end.
@@ -58,11 +58,12 @@ def sh(cmd, **kw):
 def setup():
     shutil.rmtree(base, ignore_errors=True)
     os.makedirs(root + '/bin')
-    sh(f'rsync -a --exclude .git /repo/ {repo}/')
+    os.makedirs(repo)
+    sh(f'git -C /repo archive HEAD | tar -x -C {repo}')  # HEAD, not the working tree: seeded changes are applied to /repo now and then
     shutil.copy(VERIF + '/known_findings.txt', root + '/known_findings.txt')
     gm = open(VERIF + '/harness/go.mod').read().replace('=> /repo', '=> ' + repo)
     open(base + '/alt.mod', 'w').write(gm)
-    shutil.copy('/repo/go.sum', base + '/alt.sum')
+    shutil.copy(repo + '/go.sum', base + '/alt.sum')
 
 
 def build(race=False):
@@ -73,7 +74,8 @@ def build(race=False):
 
 def main():
     subprocess.run(f'cd {VERIF}/tools/mutgen && go build -o {base}_mutgen . ', shell=True, env=env, check=True)
-    muts = [json.loads(l) for l in subprocess.run([base + '_mutgen', '/repo'], capture_output=True, text=True).stdout.splitlines()]
+    setup()
+    muts = [json.loads(l) for l in subprocess.run([base + '_mutgen', repo], capture_output=True, text=True).stdout.splitlines()]
     outfile = f'{OUTDIR}/stage{stage}.tsv'
     done = set()
     if os.path.exists(outfile):
@@ -87,11 +89,13 @@ def main():
     muts = [m for i, m in enumerate(muts) if i % nstreams == stream and m['id'] not in done]
     if LIMIT:
         muts = muts[:LIMIT]
-    setup()
+    pristine = {}
     for m in muts:
         t0 = time.time()
         path = repo + '/' + m['file']
-        src = open('/repo/' + m['file'], 'rb').read()
+        if m['file'] not in pristine:
+            pristine[m['file']] = open(path, 'rb').read()
+        src = pristine[m['file']]
         assert src[m['start']:m['end']].decode() == m['orig'], m
         open(path, 'wb').write(src[:m['start']] + m['repl'].encode() + src[m['end']:])
         verdict, killer = 'survived', ''
